@@ -137,6 +137,9 @@ def run(ck):
         ck.guard("C01-R6", r6_depth, ck, F)
         ck.guard("C01-R7", r7_mirror, ck, F)
         ck.guard("C01-R8", r8_pending_block, ck, F)
+        ck.guard("C01-R9", r9_fill_lengths, ck, F)
+    from . import fixtures
+    ck.guard("C01-R9", fixtures.run, ck, "C01")
     ck.trusted += ["rustc MIR construction", "the codec crates (snap, flate2, lz4_flex, zstd): block bytes in = block bytes out", "std Vec/slice semantics (last_mut, split_last_mut)"]
 
 
@@ -628,3 +631,15 @@ def r7_mirror(ck, F, R="C01-R7"):
     ]
     for a, b in pairs:
         mirror.check_pair(ck, R, F, a, b, mirror.DIRECTION)
+
+
+# ---------------------------------------------------------------------------------------
+def r9_fill_lengths(ck, F, R="C01-R9"):
+    """every byte of a block that reaches the file must be codec output: a codec / stream call that fills a
+    caller-provided `&mut [u8]` and reports the length it produced must have that length read (to
+    truncate / slice the buffer) — otherwise the unwritten tail of the buffer is written as block bytes"""
+    bad = dropped_fill_lengths(F)
+    for b, s, n in bad:
+        ck.ob(R, f"fill-length-dropped/{b.path}/{n.rsplit('::', 1)[-1]}", False, f"{n} fills a byte buffer and returns the number of bytes produced, which is never read: the rest of the buffer is handed on as data", b, s)
+    n = sum(1 for b in F.user_bodies() for s, c, t in b.calls())
+    ck.ob(R, "fill-lengths-read", not bad, f"{n} call sites inspected: no call that fills a `&mut [u8]` has its produced length discarded (fixture fill_len_dropped proves the detector fires)", config=F.config)
